@@ -53,13 +53,13 @@ TABLE = {
 # history-level restatements for the automata-side properties, whose step-level property files are hand-written
 # (first build round); these go into props/Properties_<id>h.v which Properties_<id>.v's check also builds
 TABLE.update({
- 'C13h': ('Automata Sys AutomataHistory', 'C13, history level: the RepeatBand bounds hold after ANY history of receive-path operations, ticks and automata API calls',
-          [('C13_after_any_history', 'C13_history'), ('C13_choice_after_any_history', 'C13_history_choose'), ('C13_tick_after_any_history', 'C13_history_tick')]),
- 'C14h': ('Automata Sys AutomataHistory', 'C14, history level: legal states after any history; the 30 s inactivity deadline fires at the next tick in every reachable state',
+ 'C13h': ('Automata Sys AutomataHistory SpecExec ExpectSound', 'C13, history level: the RepeatBand bounds hold after ANY history of receive-path operations, ticks and automata API calls',
+          [('C13_after_any_history', 'C13_history'), ('C13_choice_after_any_history', 'C13_history_choose'), ('C13_tick_after_any_history', 'C13_history_tick'), ('C13_runtime_expectation_sound', 'ni_expect_sound')]),
+ 'C14h': ('Automata Sys AutomataHistory SpecExec ExpectSound', 'C14, history level: legal states after any history; the 30 s inactivity deadline fires at the next tick in every reachable state',
           [('C14_every_reachable_state_legal', 'C14_history_state_valid'), ('C14_receive_path_from_start', 'C14_history_state_valid_rx'), ('C14_inactivity_after_any_history', 'C14_history_timeout'),
-           ('C14_invariant_of_every_history', 'history_inv')]),
- 'C15h': ('Automata Sys AutomataHistory', 'C15, history level: no timestamp from the future; the life-cycle table applies in every reachable state; the tick leaves the session automaton alone',
-          [('C15_after_any_history', 'C15_history_invariant'), ('C15_flow_after_any_history', 'C15_history_flow'), ('C15_tick_after_any_history', 'C15_history_tick')]),
+           ('C14_invariant_of_every_history', 'history_inv'), ('C14_runtime_expectation_sound', 'mapping_expect_sound_all'), ('C14_timed_out_means_idle', 'mapping_timed_out_quiescent')]),
+ 'C15h': ('Automata Sys AutomataHistory SpecExec ExpectSound', 'C15, history level: no timestamp from the future; the life-cycle table applies in every reachable state; the tick leaves the session automaton alone',
+          [('C15_after_any_history', 'C15_history_invariant'), ('C15_flow_after_any_history', 'C15_history_flow'), ('C15_tick_after_any_history', 'C15_history_tick'), ('C15_runtime_expectation_sound', 'session_expect_sound'), ('C15_runtime_expectation_total', 'session_expect_defined')]),
  'C16h': ('Automata Sys TableProofs AutomataHistory SpecExec DictRefinement', 'C16, history level: the table invariant holds after any history through the frame flow and the tick, not only through the table API; the executable dictionary used as run-time oracle refines the table',
           [('C16_flow_preserves', 'flow_table_inv'), ('C16_tick_preserves', 'tick_table_inv'), ('C16_after_any_history', 'C16_history_flow'),
            ('C16_dictionary_refines_any_history', 'dict_history_refines'), ('C16_dictionary_observations_agree', 'dict_history_observations'), ('C16_dictionary_add', 'dict_add_refines'),
